@@ -154,6 +154,8 @@ def _keep_all_propagate_recursive(case, failure):
 
 
 KNOWN_CLASSES = {
+    "keep_all_body_disjunction": lambda case, failure: any(s[0] == "rule_or" for s in case["prog"]) and any(
+        o.get("keep_all") for o in case["optsets"]),
     "cyclic_or_complement": lambda case, failure: gp.cyclic_body_disjunction_with_complement(case["prog"]),
     "keep_all_propagate_recursive": _keep_all_propagate_recursive,
     "always": lambda case, failure: True,
